@@ -393,6 +393,10 @@ def resultNull (_op : Op) : Bool := false
 /-- `p_rwlock_new`: NULL iff allocation failed or `pthread_rwlock_init` returned non-zero -/
 def newOk (allocOk : Bool) (initCode : Int) : Bool := allocOk && initCode == 0
 
+/-- `p_rwlock_free (lock)`, non-NULL: `pthread_rwlock_destroy` is called; a failure is only logged
+    (`P_ERROR`), the object is released in both cases: (destroy called, object released) -/
+def freeResult (_destroyCode : Int) : Bool × Bool := (true, true)
+
 /-- abstract pthread rwlock: who holds it (trusted machine) -/
 structure PState where
   readers : List Tid := []      -- read holders (a multiset: POSIX read locks may be recursive)
